@@ -28,7 +28,12 @@ from c16lib import *  # noqa: F401,F403  (classify, mutate, commands, run_input,
 
 # ------------------------------------------------------------------ the hook
 
-def extra(ctx, cfg, results):
+def cli_search(ctx, cfg):
+    """the CLI-only part (bin/check falls back to it when the harness does not build against the tree)"""
+    extra(ctx, cfg, {}, inprocess=False)
+
+
+def extra(ctx, cfg, results, inprocess=True):
     exe = clilib.anthem_exe()
     thorough = ctx.tier == "thorough"
     n_inputs = 12000 if thorough else 1800
@@ -95,7 +100,7 @@ def extra(ctx, cfg, results):
         if accepted_somewhere:
             ctx.nontrivial.add(text)
     # in-process parsing of every node type
-    kinds = harness_kinds()
+    kinds = harness_kinds() if inprocess else []
     r2 = clilib.rng(ctx, "inprocess")
     texts = [t for t, _, _ in inputs[n_fixed:] if len(t) <= 600]
     r2.shuffle(texts)
@@ -109,7 +114,7 @@ def extra(ctx, cfg, results):
         lines.append(f"parse_any\t({sx(k.encode())} {sx(t)})")
         meta.append((k, t))
     n_stream = len(lines)
-    for t in texts[:n_inproc]:
+    for t in (texts[:n_inproc] if inprocess else []):
         try:
             t.decode("utf8")
         except UnicodeDecodeError:
@@ -117,7 +122,7 @@ def extra(ctx, cfg, results):
         for k in kinds:
             lines.append(f"parse_any\t({sx(k.encode())} {sx(t)})")
             meta.append((k, t))
-    inproc = run_isolating(lines)
+    inproc = run_isolating(lines) if lines else []
     dist["node_type_stream_cases"] = n_stream
     bad_seeds = [(k, t.decode()) for (k, t), o in zip(meta[:n_stream], inproc[:n_stream])
                  if t.decode() in NODE_SEEDS.get(k, []) and o == "err"]
